@@ -38,7 +38,8 @@ def seeded_key(rng: random.Random) -> str:
     if style == 'ascii':
         return ''.join(rng.choice('abcXYZ019_- ') for _ in range(rng.randint(1, 12)))
     if style == 'nonascii':
-        return ''.join(rng.choice('aé∑ß漢ü0_𝄞') for _ in range(rng.randint(1, 8)))
+        # (U+FEFF is an ordinary character of a key; only a decoder that takes it for a byte-order mark drops it)
+        return ''.join(rng.choice('aé∑ß漢ü0_𝄞\ufeff\u00a0\u2028') for _ in range(rng.randint(1, 8)))
     if style == 'long':
         return 'k' * rng.choice((255, 256, 65535, 40000))
     return '_'.join(''.join(rng.choice('01') for _ in range(4)) for _ in range(rng.randint(1, 3)))
